@@ -1,6 +1,7 @@
 import Driver.Proto
 import Driver.Msg
 import StunVerif.Agent.Agent
+import StunVerif.Agent.Composed
 namespace Driver.AgentFam
 open StunVerif StunVerif.Agent Driver
 
@@ -70,7 +71,7 @@ def snapshot (s : State) : String :=
   s!"v={v} o={o} p={",".intercalate p}"
 
 /-- the message `S` hands to `send`, rebuilt with the Lean builder model (composed check) -/
-def buildSend (cls tid : Nat) (integ : String) (payload : Bytes) : Option Bytes := do
+def buildSend (cls tid : Nat) (integ : String) (payload : Bytes) : Option Builder := do
   let b0 := Builder.new (Spec.interleave cls 1) tid
   let b1 ← if payload.isEmpty then some b0 else (b0.add (.raw ⟨0x8022, payload⟩)).toOption
   let b2 ← match integ.splitOn ":" with
@@ -78,7 +79,25 @@ def buildSend (cls tid : Nat) (integ : String) (payload : Bytes) : Option Bytes 
     | ["1", k] => (b1.addIntegrity MsgFam.refHashes (keyCreds k) .sha1).toOption
     | ["2", k] => (b1.addIntegrity MsgFam.refHashes (keyCreds k) .sha256).toOption
     | _ => none
-  some b2.build
+  some b2
+
+/-- the message `H` hands to `handle_stun`, rebuilt with the Lean builder model: SOFTWARE "peer",
+    optional integrity, optional corruption of one HMAC bit -/
+def buildIncoming (kind : String) (tid : Nat) (sign corrupt : String) : Option Bytes := do
+  let cls := if kind == "ok" then 2 else if kind == "err" then 3 else if kind == "req" then 0 else 1
+  let b0 := Builder.new (Spec.interleave cls 1) tid
+  let b1 ← (b0.add (.typed (.software (asciiBytes "peer")))).toOption
+  let (b2, signed) ← match sign.splitOn ":" with
+    | ["1", k] => (b1.addIntegrity MsgFam.refHashes (keyCreds k) .sha1).toOption.map (·, true)
+    | ["2", k] => (b1.addIntegrity MsgFam.refHashes (keyCreds k) .sha256).toOption.map (·, true)
+    | _ => some (b1, false)
+  let bytes := b2.build
+  if corrupt == "1" && signed then
+    let i := bytes.length - 3
+    some (bytes.take i ++ [(bytes.getD i 0) ^^^ 0x40] ++ bytes.drop (i + 1))
+  else some bytes
+
+def keyCredsNat (k : Key) : Creds := keyCreds (toString k)
 
 structure St where
   s : State
@@ -95,28 +114,24 @@ def stepLine (st : State) (op obs : String) : Option (State × String × String)
     let a ← addrNum to
     let n ← now.toNat?
     let pl ← ofHex payload
-    let built ← buildSend c t integ pl
-    let (s', out) :=
-      if c = 0 then step st (.sendReq t built (integ ≠ "n") a n)
-      else step st (.sendOther built a)
-    some (s', s!"{renderOut out} built={toHex built}", if c = 0 then "send-req" else "send-other")
+    let bld ← buildSend c t integ pl
+    let (s', out) := sendMsg st bld a n
+    some (s', s!"{renderOut out} built={toHex bld.build}", if c = 0 then "send-req" else "send-other")
   | ["H", kind, tid, sign, corrupt, src] => do
     let t ← hexNat tid
     let a ← addrNum src
-    let isResp := kind == "ok" || kind == "err"
-    let signKey : Option String := match sign.splitOn ":" with
-      | [_, k] => some k
-      | _ => none
-    let valid : Key → Bool := fun k =>
-      match signKey with
-      | some ks => corrupt == "0" && ks.toNat? == some k
-      | none => false
-    let (s', out) := step st (.handle ⟨isResp, t, valid⟩ a)
-    let r := match out with
-      | .response => s!"resp:{hex24 t}"
-      | .incoming => s!"incoming:{hex24 t}"
-      | o => renderOut o
-    some (s', r, s!"handle-{renderOut out}")
+    -- composed: the bytes are rebuilt by the Lean builder, parsed by the Lean parser, and the
+    -- descriptor (response?, transaction id, integrity verdict per key) comes from the Lean codec
+    let hb ← buildIncoming kind t sign corrupt
+    match msgFromBytes hb with
+    | .error _ => some (st, s!"noparse hb={toHex hb}", "handle-noparse")
+    | .ok m =>
+      let (s', out) := handleMsg MsgFam.refHashes keyCredsNat st m a
+      let r := match out with
+        | .response => s!"resp:{hex24 m.tid}"
+        | .incoming => s!"incoming:{hex24 m.tid}"
+        | o => renderOut o
+      some (s', s!"{r} hb={toHex hb}", s!"handle-{renderOut out}")
   | ["P", now] => do
     let n ← now.toNat?
     -- the transaction the implementation served, if any
